@@ -7,7 +7,7 @@ KEYS = {
 }
 _r = random.Random(70000)
 VALS = {
-    "vE": b"", "v1": b"abc", "v2": b"\x00\x01\xfe\xff" * 5, "v70k": bytes(_r.getrandbits(8) for _ in range(70000)),
+    "vE": b"", "v1": b"abc", "v1b": b"xyz", "v2": b"\x00\x01\xfe\xff" * 5, "v70k": bytes(_r.getrandbits(8) for _ in range(70000)),
 }
 HDRS = {  # (h1, h2/comment, b0)
     "hdDef": (None, None, None),
